@@ -85,6 +85,31 @@ func Histories(tier string) []HistFamily {
 			})
 		}
 	}
+	// one ArcTo over a grid of radii (major first, minor first, negative, equal) x rotations over four
+	// turns in steps of 15 degrees and just beside the quadrant boundaries x flags x end points: the
+	// normalisation of the stored arc (rx >= ry > 0, 0 <= phi < pi) has a branch per combination of
+	// "radii swapped" and "rotation quadrant"
+	radii := [][2]float64{{2, 1}, {1, 2}, {-1, 2}, {1.5, 1.5}, {1, 3}, {3, -1}}
+	var rots []float64
+	for r := -720.0; r <= 720; r += 15 {
+		rots = append(rots, r)
+	}
+	rots = append(rots, 89.9, 90.1, 179.9, 180.1, 269.9, 270.1, 275, 345, 359.9, -0.1, -20, 700)
+	ends := []Pt{{X: 2, Y: 0}, {X: 1, Y: 1}, {X: 0, Y: -2}}
+	nArc := int64(len(radii) * len(rots) * 4 * len(ends))
+	fs = append(fs, HistFamily{
+		Name: "one ArcTo over radii x rotations x flags x end points", N: nArc,
+		Calls: func(i int64) []Call {
+			e := ends[i%int64(len(ends))]
+			i /= int64(len(ends))
+			f := i % 4
+			i /= 4
+			rot := rots[i%int64(len(rots))]
+			i /= int64(len(rots))
+			rr := radii[i]
+			return []Call{arcTo(rr[0], rr[1], rot, f&1 != 0, f&2 != 0, e)}
+		},
+	})
 	return fs
 }
 
